@@ -1,5 +1,6 @@
 (* C04 — property theorems only (the wrapper model is coq/C03/Model.v, the kernels coq/C04/Model.v). *)
 From V Require Import Common.NumFacts C03.Model C03.Proofs C04.KBase C04.Model C04.Gen_kernels C04.Proofs C04.Homog C04.Flx C04.FlxProofs.
+From V Require C04.Setup C04.SetupProofs.
 Open Scope Q_scope.
 
 (* T / P equal the specified ones in every branch that returns normally, for every oracle.
@@ -402,3 +403,46 @@ Proof.
   - eexists; eexists; vm_compute; reflexivity.
   - vm_compute; discriminate.
 Qed.
+
+(* ---------- VLE._setup, the BubblePoint / DewPoint constructor caches and the K-value base of _solve_v, over histories ----------
+   For EVERY history of flashes on any number of VLE objects (streams) of any property packages -- packages may list the same
+   chemical objects in different orders, the material of a stream may change between calls -- every flash whose material has at
+   least two chemicals in equilibrium works with a BubblePoint AND a DewPoint instance that store exactly the chemicals of the
+   current material in the order of the stream's own package (so the composition vector VLE hands them is read in the right
+   order), and every K-value base pcf * Psat / P given to the fixed-point solver is built from the vapour pressures of those
+   chemicals at the temperature of that very call. *)
+Import C04.Setup C04.SetupProofs.
+Theorem C04_setup_objects_follow_package_order : forall psat pcf pkgs ops,
+  Forall2 (good psat pcf pkgs) ops (fst (frun psat pcf pkgs (pst0 pkgs) ops)).
+Proof. exact history_good. Qed.
+Print Assumptions C04_setup_objects_follow_package_order.
+
+(* ... hence the same call gives the same K bases, index and equilibrium-object contents after any history as in a fresh process *)
+Theorem C04_kbase_history_independent : forall psat pcf pkgs h o p ob1 ob2,
+  nth_error pkgs (fo_obj o) = Some p -> fo_nz o <> [] -> (2 <= length (vle_indices (fst p) (fo_nz o)))%nat ->
+  (forall T P, In (T, P) (fo_TP o) -> ~ P == 0) ->
+  last (fst (frun psat pcf pkgs (pst0 pkgs) (h ++ [o]))) None = Some ob1 ->
+  fst (frun psat pcf pkgs (pst0 pkgs) [o]) = [Some ob2] ->
+  ob_kb ob1 = ob_kb ob2 /\ ob_index ob1 = ob_index ob2 /\
+  (exists i i', ob_bp ob1 = Some (i, mkkey p (ob_index ob1)) /\ ob_bp ob2 = Some (i', mkkey p (ob_index ob1))) /\
+  (exists j j', ob_dp ob1 = Some (j, mkkey p (ob_index ob1)) /\ ob_dp ob2 = Some (j', mkkey p (ob_index ob1))).
+Proof. exact kbase_fresh_agrees. Qed.
+Print Assumptions C04_kbase_history_independent.
+
+(* non-vacuity: two packages over the chemical objects 0..3 in opposite orders (chemical 3 does not take part in VLE);
+   stream 0 is flashed as {0,1}, then re-fed as {1,2} (a different set of the same size) at the same temperature, then the
+   second package flashes {0,1,2}: the premises of [good] hold at each step, the second package gets its own instances with
+   the chemicals in ITS order, and the K base of the re-fed stream is that of chemicals 1, 2 *)
+Example C04_setup_history_example :
+  let pa : pkg := ([(0, true); (1, true); (2, true); (3, false)]%nat, (1, 1, 1)%nat) in
+  let pb : pkg := ([(3, false); (2, true); (1, true); (0, true)]%nat, (1, 1, 1)%nat) in
+  let psat := fun (c : nat) (T : Q) => inject_Z (Z.of_nat (S c)) * T in
+  let ops := [mkfop 0 [0; 1]%nat false false [(350, 2)]; mkfop 0 [1; 2]%nat false false [(350, 2)];
+              mkfop 1 [0; 1; 2]%nat false true [(350, 2)]; mkfop 1 [0; 1; 2]%nat false true [(360, 2)]] in
+  map (fun o => match o with Some b => (ob_index b, option_map snd (ob_dp b), ob_kb b) | None => ([], None, []) end)
+      (fst (frun psat pcf_mock [pa; pb] (pst0 [pa; pb]) ops)) =
+  [([0; 1]%nat, Some ([0; 1]%nat, 1%nat, 1%nat, 1%nat), [Ok [1 * (1 * 350) / 2; 1 * (2 * 350) / 2]]);
+   ([1; 2]%nat, Some ([1; 2]%nat, 1%nat, 1%nat, 1%nat), [Ok [1 * (2 * 350) / 2; 1 * (3 * 350) / 2]]);
+   ([1; 2]%nat, Some ([2; 1]%nat, 1%nat, 1%nat, 1%nat), [Ok [1 * (3 * 350) / 2; 1 * (2 * 350) / 2]]);
+   ([1; 2]%nat, Some ([2; 1]%nat, 1%nat, 1%nat, 1%nat), [Ok [1 * (3 * 360) / 2; 1 * (2 * 360) / 2]])].
+Proof. vm_compute. reflexivity. Qed.
